@@ -621,6 +621,17 @@ func runC10(r *core.Run) {
 		cases = append(cases, c10Case{Kind: "plain", Names: names, Permute: len(names) <= 4})
 		cases = append(cases, c10Case{Kind: "quick", Names: names})
 	}
+	// names that are byte strings, not text: ill-formed UTF-8 differing in one
+	// invalid byte, a lone continuation byte, a truncated sequence (host file
+	// names need not be UTF-8; distinct names stay distinct entries)
+	bn := []string{"r-\xe9.txt", "r-\xe8.txt", "\x80", "\xe2\x82", "ok"}
+	for mask := 3; mask < 1<<uint(len(bn)); mask++ {
+		names := gen.SubsetOf(bn, mask)
+		if len(names) < 2 {
+			continue
+		}
+		cases = append(cases, c10Case{Kind: "plain", Names: names, Permute: true}, c10Case{Kind: "quick", Names: names}, c10Case{Kind: "sharded", Fanout: 8, Names: names, Permute: len(names) <= 3})
+	}
 	cases = append(cases, c10Case{Kind: "recursive"})
 	// the same builds after a failed build of the same input in this process
 	for _, n := range []int{1, 4, 7} {
